@@ -189,13 +189,68 @@ def gen_step(rng, mon, n):
     raise ValueError(o)
 
 
+def vary_settings(rng, cur):
+    """a reassignment of the nutrition requirements relative to the current ones"""
+    s = dict(cur)
+    r = rng.random()
+    if r < 0.45:        # same population and kcals, different fat / protein requirement
+        s["fat_daily"] = float(rng.choice([20, 35, 47, 60, 94, 300]))
+        s["protein_daily"] = float(rng.choice([25, 40, 51, 53, 102, 400]))
+    elif r < 0.65:
+        s["population"] = float(rng.choice([1e4, 3.2e5, 4.5e7, 3.3e8, 1.4e9, 7.8e9]))
+    elif r < 0.85:
+        s["kcals_daily"] = float(rng.choice([500, 1800, 2100, 2500, 3000]))
+    elif r < 0.93:
+        s = {"kcals_daily": float(rng.choice([1800, 2100, 2625])), "fat_daily": float(rng.choice([30, 47, 70])),
+             "protein_daily": float(rng.choice([45, 51, 80])), "population": float(rng.choice([1e6, 7.8e9]))}
+    # else: only the flags are toggled
+    return s
+
+
+def gen_set_req(rng, cur):
+    return {"op": "set_req", "settings": vary_settings(rng, cur), "flags": [rng.random() < 0.5, rng.random() < 0.5]}
+
+
+def gen_settings_seq(rng):
+    """history of requirement reassignments interleaved with conversions and round trips"""
+    mon = rng.random() < 0.5
+    sfx = EACH if mon else rng.choice(["", PER])
+    n = rng.randint(1, 4)
+
+    def vals():
+        return {"t": "arr", "v": [float(rng.randint(1, 4096)) / 64 for _ in range(n)]} if mon else \
+            {"t": "float", "v": float(rng.randint(1, 4096)) / 64}
+    init = {"k": vals(), "f": vals(), "p": vals(), "lk": "billion kcals" + sfx, "lf": "thousand tons" + sfx,
+            "lp": "thousand tons" + sfx}
+    cur = dict(SETTINGS)
+    steps = []
+    for _ in range(rng.randint(2, 4)):
+        r = rng.random()
+        if r < 0.5:
+            steps.append({"op": "helper", "name": rng.choice(HELPERS)})
+        else:
+            steps.append({"op": "in_units", "to": [rng.choice(KCAL_BARE), rng.choice(FAT_BARE), rng.choice(FAT_BARE)]})
+        st = gen_set_req(rng, cur)
+        cur = st["settings"]
+        steps.append(st)
+        if rng.random() < 0.6:       # back to the base units under the new requirements (round trip across a change)
+            steps.append({"op": "helper", "name": "in_units_bil_kcals_thou_tons_thou_tons_per_month"})
+    steps.append({"op": "helper", "name": rng.choice(HELPERS)})
+    return {"init": init, "steps": steps, "seed": rng.randint(0, 1 << 30), "getters": False}
+
+
 def gen_seq(rng, getters):
     init = gen_ctor(rng)
     mon = init["k"]["t"] in ("list", "arr")
     n = len(init["k"]["v"]) if mon else 0
     steps = []
+    cur = dict(SETTINGS)
     for _ in range(rng.randint(1, 6)):
-        st, mon, n = gen_step(rng, mon, n)
+        if rng.random() < 0.06:
+            st = gen_set_req(rng, cur)
+            cur = st["settings"]
+        else:
+            st, mon, n = gen_step(rng, mon, n)
         steps.append(st)
     return {"init": init, "steps": steps, "seed": rng.randint(0, 1 << 30), "getters": getters}
 
@@ -379,7 +434,22 @@ def seq_terms(seq, res, conv):
         terms.append((coq_getters(st0, res["start_getters"]), ("getters", -1)))
     cur = st0
     items = []
+    seg_start, seg_off = st0, 0
+
+    def flush():
+        if items:
+            terms.append((f"check_seq {TOL} {conv} {seg_off}%nat {coq_food(seg_start)} {clist(items)}", ("seq", None)))
     for i, (st, r) in enumerate(zip(seq["steps"], res["steps"])):
+        if st["op"] == "set_req":
+            # the model is given the CURRENT requirements: close the segment, continue with the new conv record
+            flush()
+            items = []
+            conv = conv_term(st["settings"])
+            seg_start, seg_off = cur, i + 1
+            stats["ops"]["set_req"] = stats["ops"].get("set_req", 0) + 1
+            if r["res"] != cur:
+                terms.append(("1%nat", ("set_req", i)))      # reassigning the requirements changed the quantity
+            continue
         y = r.get("y")
         if y is not None and ("err" in y or not finite_food(y)):
             stats["truncated"] += 1
@@ -405,8 +475,7 @@ def seq_terms(seq, res, conv):
         if "getters" in r:
             terms.append((coq_getters(rr, r["getters"]), ("getters", i)))
         cur = rr
-    if items:
-        terms.append((f"check_seq {TOL} {conv} 0%nat {coq_food(st0)} {clist(items)}", ("seq", None)))
+    flush()
     return terms, stats
 
 
@@ -441,6 +510,7 @@ def build_groups(ctx, nseq, npred):
     groups = []
     for gi, fl in enumerate(FLAGS):
         seqs = [gen_seq(rng, getters=(j % 4 == 0)) for j in range(nseq // 4)]
+        seqs += [gen_settings_seq(rng) for _ in range(max(1, nseq // 32))]
         preds = [gen_pred(rng) for _ in range(npred // 4)]
         groups.append({"flags": list(fl), "settings": SETTINGS, "seed": rng.randint(0, 1 << 30), "seqs": seqs,
                        "preds": preds})
@@ -520,14 +590,16 @@ def describe(m):
         return st["op"], f"step {i} ({st['op']}{kt}): {CODE_NAMES.get(c, c)}"
     if kind == "ctor":
         return "ctor", f"constructor: {CODE_NAMES.get(code, code)}"
+    if kind == "set_req":
+        return "set_req", f"step {m['what'][1]}: set_nutrition_requirements changed the quantity"
     if kind == "getters":
         return "getters", f"label getter #{code // 10} after step {m['what'][1]}: code {code % 10}"
     return m["pred"]["pred"], f"predicate {m['pred']['pred']}: {CODE_NAMES.get(code, code)}"
 
 
 def correspondence(ctx):
-    nseq = 2400 if ctx.quick else 24000
-    npred = 1600 if ctx.quick else 16000
+    nseq = 2000 if ctx.quick else 24000
+    npred = 1200 if ctx.quick else 16000
     groups = build_groups(ctx, nseq, npred)
     ctx.log("running implementation on", nseq, "sequences,", npred, "predicate cases")
     results = ctx.run_impl("c11_impl", {"groups": groups})["groups"]
@@ -569,7 +641,7 @@ def audit(ctx):
     nseq = 1200 if ctx.quick else 12000
     seqs = []
     for j in range(nseq):
-        s = gen_seq(rng, getters=False)
+        s = gen_seq(rng, getters=False) if j % 6 else gen_settings_seq(rng)
         seqs.append(s)
     payload = {"settings": SETTINGS, "seqs": seqs, "seed": rng.randint(0, 1 << 30),
                "grid": "quick" if ctx.quick else "thorough"}
